@@ -5,6 +5,7 @@ import AnnetModel.Glue.Common
 import AnnetModel.Model.Api
 import AnnetModel.Spec.TestLogics
 import AnnetModel.Spec.DiffText
+import AnnetModel.Spec.ConvergeNested
 
 namespace Annet.Glue.Rb
 open Lean Annet.Glue Annet.Rules Annet.Diff Annet.Patch
@@ -158,7 +159,8 @@ def patchH : Handler := fun j => do
   match r with
   | .error e => pure (pErr e)
   | .ok res => pure (Json.mkObj [("patch", ptreeToJson res.patch),
-                                 ("stripped", Json.arr (res.diff.map ditemToJson).toArray)])
+                                 ("stripped", Json.arr (res.diff.map ditemToJson).toArray),
+                                 ("tree_paths", Json.arr ((ConvergeNested.treePaths job.v.exit res.patch).map jStrs).toArray)])
 
 /-- `{"op":"rb.order_config", vendor, ordering, config}` -/
 def orderH : Handler := fun j => do
